@@ -740,7 +740,8 @@ class CtxAwareTransformer(NodeTransformer):
         ups = set()
         for targ in node.targets:
             if isinstance(targ, Tuple | List):
-                ups.update(leftmostname(elt) for elt in targ.elts)
+                # every name of the target, nested ones included
+                ups.update(gather_names(targ))
             elif isinstance(targ, BinOp):
                 newnode = self.try_subproc_toks(node)
                 if newnode is node:
